@@ -218,6 +218,9 @@ class CtlSemaphore:
     def acquire(self, blocking=True, timeout=None):
         self.s.yield_point("sem.acquire")
         if self.n == 0:
+            if not blocking:
+                self.history.append(self.n)
+                return False
             self.s.block_until(lambda: self.n > 0, "sem.wait")
         self.n -= 1
         self.holder = self.s.current_name()
